@@ -7,11 +7,20 @@
  *         addto n: lmt += n, retained -= 1 ;  used_once: cnt += 1
  *         after addto / used_once: reclaimed (removed from the table, returned to its mempool, once) iff retained == 0 && cnt == lmt
  *     INV (entry present => retained > 0 || cnt < lmt) is assumed before and asserted after (closure): histories of any length.
- *  MODE 1 (history): K symbolic operations from the empty repository, with a ghost model, across entry generations. */
-#include "repo_common.h"
+ *  MODE 1 (history): K symbolic operations from the empty repository, with a ghost model, across entry generations.
+ *  MODE 2 (racing creator): lookup_entry_and_create from a symbolic valid state while the ENVIRONMENT (another creator, modelled
+ *     atomically by the harness inside the stub's unlock) may act between the first critical section (lookup miss, unlock) and
+ *     the second (re-lock, re-check): a complete foreign create, optionally followed by a foreign used_once and by the foreign
+ *     creator's addto_usage_limit(n) (which may reclaim the foreign entry again).  Same model-based oracle: the returned entry
+ *     is retained once more for this creator, the spare entry goes back to the mempool exactly once, nothing is reclaimed
+ *     while this creator holds the entry; then this creator's own used_once / addto_usage_limit follow. */
 #ifndef MODE
 #define MODE 0
 #endif
+#if MODE == 2
+#define VP_ENV_HOOK 1
+#endif
+#include "repo_common.h"
 #ifndef OP
 #define OP 0
 #endif
@@ -42,8 +51,22 @@ static void check_against_model(const char *unused)
         VASSERTM(ent_free[k] <= ent_alloc[k], "nothing freed that was not allocated");
     }
 }
+/* (the assertions above decide; this only stops a run that already diverged from the model from executing further real
+ * calls outside their contract, which would surface as a spurious unwinding failure instead of the violation) */
+static int state_matches_model(void)
+{
+    data_repo_entry_t *in = slot_entry();
+    if((in != NULL) != (m_exists != 0)) return 0;
+    return !m_exists || (ent_index(in) == m_idx && in->retained == m_ret && in->usagecnt == m_cnt && in->usagelmt == m_lmt);
+}
 static void m_reclaim_if_unused(void) { if(m_ret == 0 && m_cnt == m_lmt) { m_exists = 0; m_freed[m_idx] = 1; } }
 
+static void check_fresh(data_repo_entry_t *e)
+{
+    VASSERTM(e->generator == NULL, "fresh entry: generator cleared");
+    for(unsigned i = 0; i < VP_NDATA; i++)
+        VASSERTM(i < the_nbdata ? e->data[i] == NULL : e->data[i] == (struct parsec_data_copy_s*)e, "fresh entry: data[0..nbdata) cleared, nothing written past nbdata");
+}
 static void op_create(void)
 {
     int before = n_alloc;
@@ -52,9 +75,7 @@ static void op_create(void)
     else {
         VASSERTM(n_alloc == before + 1, "create on an absent key allocates one entry");
         m_exists = 1; m_idx = before; m_ret = 1; m_cnt = 0; m_lmt = 0;
-        VASSERTM(e->generator == NULL, "fresh entry: generator cleared");
-        for(unsigned i = 0; i < VP_NDATA; i++)
-            VASSERTM(i < the_nbdata ? e->data[i] == NULL : e->data[i] == (struct parsec_data_copy_s*)e, "fresh entry: data[0..nbdata) cleared, nothing written past nbdata");
+        check_fresh(e);
     }
     VASSERTM(ent_index(e) == m_idx, "create returns the (single) entry of the key");
 }
@@ -69,16 +90,8 @@ static void op_used(void)
     m_cnt++; m_reclaim_if_unused();
 }
 
-int main(void)
+static void sym_prestate(unsigned nbdata)
 {
-    unsigned nbdata = (unsigned)IN_RANGE(1, VP_NDATA);
-    unsigned hint = (unsigned)IN_RANGE(0, 100000);
-    repo_setup(nbdata, hint);
-    VASSERTM(ht_nb_bits >= 1 && ht_nb_bits <= 16 && ((1u << ht_nb_bits) >= hint || ht_nb_bits == 16) && (ht_nb_bits == 1 || (1u << (ht_nb_bits - 1)) < hint),
-             "create_nothreadsafe: table size = smallest power of two >= the hint, within 2..65536");
-    VASSERTM(repo == &REPO_OBJ && repo->nbdata == nbdata && ht_inited == 1 && REPO_OBJ.table.elt_hashitem_offset == offsetof(data_repo_entry_t, ht_item), "create_nothreadsafe: table initialised with the entry's hash item offset, nbdata recorded");
-#if MODE == 0
-    /* symbolic valid pre-state */
     m_exists = IN_BOOL();
     if(m_exists) {
         data_repo_entry_t *e = (data_repo_entry_t*)vp_entry_alloc(&POOLS[nbdata]);   /* generation 0 */
@@ -87,6 +100,77 @@ int main(void)
         e->retained = m_ret; e->usagecnt = m_cnt; e->usagelmt = m_lmt; e->ht_item.key = THE_KEY; e->data_repo_mempool_owner = &POOLS[nbdata]; e->generator = NULL;
         slot = &e->ht_item;
     }
+}
+#if MODE == 2
+/* the environment between the two critical sections of this creator's lookup_entry_and_create (called by the stub's unlock
+ * when the lookup missed): nothing, or a complete foreign create [+ a foreign used_once] [+ the foreign creator's addto(n)] */
+static int env_fired, env_allocs, env_reclaimed;
+static void vp_env_between_sections(void)
+{
+    env_armed = 0;
+    if(!IN_BOOL()) return;
+    env_fired = 1;
+    int k = n_alloc;
+    data_repo_entry_t *f = (data_repo_entry_t*)vp_entry_alloc(&POOLS[the_nbdata]); env_allocs++;
+    for(unsigned i = 0; i < the_nbdata; i++) f->data[i] = NULL;
+    f->generator = NULL; f->data_repo_mempool_owner = &POOLS[the_nbdata]; f->ht_item.key = THE_KEY;
+    f->usagelmt = 0; f->usagecnt = 0; f->retained = 1; slot = &f->ht_item;
+    m_exists = 1; m_idx = k; m_ret = 1; m_cnt = 0; m_lmt = 0;
+    if(IN_BOOL()) { f->usagecnt++; m_cnt++; }                              /* a consumer of the foreign creator's entry */
+    if(IN_BOOL()) {                                                          /* the foreign creator announces and releases */
+        int n = IN_RANGE(0, 2);
+        VASSUME(m_lmt + n >= m_cnt);                                         /* contract: the last announcement covers the uses recorded */
+        f->usagelmt += n; f->retained--; m_lmt += n; m_ret--;
+        if(m_ret == 0 && m_cnt == m_lmt) { slot = NULL; vp_entry_free(f->data_repo_mempool_owner, f); env_reclaimed = 1; }
+        m_reclaim_if_unused();
+    }
+}
+#endif
+
+int main(void)
+{
+    unsigned nbdata = (unsigned)IN_RANGE(1, VP_NDATA);
+    unsigned hint = (unsigned)IN_RANGE(0, 100000);
+    repo_setup(nbdata, hint);
+    VASSERTM(ht_nb_bits >= 1 && ht_nb_bits <= 16 && ((1u << ht_nb_bits) >= hint || ht_nb_bits == 16) && (ht_nb_bits == 1 || (1u << (ht_nb_bits - 1)) < hint),
+             "create_nothreadsafe: table size = smallest power of two >= the hint, within 2..65536");
+    VASSERTM(repo == &REPO_OBJ && repo->nbdata == nbdata && ht_inited == 1 && REPO_OBJ.table.elt_hashitem_offset == offsetof(data_repo_entry_t, ht_item), "create_nothreadsafe: table initialised with the entry's hash item offset, nbdata recorded");
+#if MODE == 2
+    sym_prestate(nbdata);
+    {
+        int before = n_alloc, was = m_exists;
+        env_armed = 1;
+        data_repo_entry_t *e = data_repo_lookup_entry_and_create(&ES, repo, THE_KEY);
+        env_armed = 0;
+        if(was) {
+            VASSERTM(!env_fired && n_alloc == before, "create on a present key: found in the first critical section, nothing allocated");
+            m_ret++;
+        } else {
+            int mine = before + env_allocs;                                  /* the entry this creator allocated after its lookup missed */
+            VASSERTM(n_alloc == mine + 1 && ent_alloc[mine] == 1, "a creator whose lookup missed allocates exactly one entry");
+            if(m_exists) { m_ret++; m_freed[mine] = 1; }                     /* re-check found the foreign creator's entry: retain it, give the spare back */
+            else { m_exists = 1; m_idx = mine; m_ret = 1; m_cnt = 0; m_lmt = 0; check_fresh(e); }
+        }
+        VASSERTM(ent_index(e) == m_idx, "create returns the (single) stored entry of the key");
+        check_against_model("");
+        VASSERTM(m_exists && m_ret >= 1, "the entry is retained for this creator");
+        if(!state_matches_model()) return 0;
+        int used = IN_BOOL();
+        if(used) { op_used(); check_against_model(""); VASSERTM(m_exists, "a use recorded while this creator holds the entry does not reclaim it"); if(!state_matches_model()) return 0; }
+        uint32_t n = (uint32_t)IN_RANGE(0, 3);
+        VASSUME(m_ret > 1 || m_lmt + (int)n >= m_cnt);
+        int recheck_hit = (!was && env_fired && !env_reclaimed);
+        op_addto(n);
+        check_against_model("");
+        if(recheck_hit && ent_free[before + 1] == 1 && ent_free[before] == 0 && m_exists) VWITNESS("re-check found the foreign creator's entry: retained it, spare entry returned, entry still in use afterwards");
+        if(recheck_hit && !m_exists) VWITNESS("shared entry reclaimed by this creator's announcement after the foreign creator released it");
+        if(!was && env_fired && env_reclaimed && ent_index(e) == before + 1) VWITNESS("foreign entry created and reclaimed in the gap: this creator inserted its own");
+        if(!was && !env_fired) VWITNESS("no interference: plain create");
+        if(was) VWITNESS("found in the first critical section");
+    }
+#elif MODE == 0
+    /* symbolic valid pre-state */
+    sym_prestate(nbdata);
 #if OP == 0
     op_create();
     check_against_model("");
